@@ -530,14 +530,14 @@ func vpHistory(t *testing.T, penc, eenc *json.Encoder, hist int, rng *rand.Rand,
 			}
 			txn.Out[0].Hours = 1 << 63
 			txn.Out[1].Hours = 1<<63 + uint64(rng.Intn(3))
-			if rng.Intn(2) == 0 && txn.Out[0].Coins >= 2e6 {
+			if rng.Intn(4) > 0 && txn.Out[0].Coins >= 2e6 {
 				// the sum wraps in an addition that is not the last one: 2^64-1-k, then k+1+..., then a small third amount
 				k := uint64(rng.Intn(1000))
 				txn.Out[0].Coins -= 1e6
 				txn.Out = append(txn.Out, coin.TransactionOutput{Address: owners[2].addr, Coins: 1e6, Hours: uint64(1 + rng.Intn(50))})
 				txn.Out[0].Hours = ^uint64(0) - k
 				txn.Out[1].Hours = k + 1 + uint64(rng.Intn(100))
-				if rng.Intn(2) == 0 {
+				if rng.Intn(3) == 0 {
 					txn.Out[0], txn.Out[2] = txn.Out[2], txn.Out[0] // or in the last one after all, in another position
 				}
 			}
@@ -673,6 +673,9 @@ func vpHistory(t *testing.T, penc, eenc *json.Encoder, hist int, rng *rand.Rand,
 			if i == 0 && round%2 == 1 && len(free) >= 2 {
 				kind = "chain" // every second round starts with a conflict chain
 			}
+			if i == 1 && round == 0 {
+				kind = "hours-overflow" // once in every history: output hours that do not fit 64 bits together
+			}
 			burn := burnChoices[rng.Intn(3)]
 			var batch []coin.Transaction
 			switch kind {
@@ -764,7 +767,7 @@ func vpHistory(t *testing.T, penc, eenc *json.Encoder, hist int, rng *rand.Rand,
 			}
 			for _, txn := range batch {
 				inject(P, txn, rng.Intn(3) == 0 || (kinds[txn.Hash().Hex()] == "null-out" && rng.Intn(4) > 0))
-				if rng.Intn(3) == 0 {
+				if rng.Intn(3) == 0 || kinds[txn.Hash().Hex()] == "hours-overflow" {
 					inject(F, txn, false)
 				}
 				if rng.Intn(6) == 0 {
